@@ -4,7 +4,6 @@ package tres
 
 import (
 	"context"
-	"errors"
 
 	"github.com/cosi-project/runtime/pkg/resource"
 	"github.com/cosi-project/runtime/pkg/state"
@@ -287,7 +286,9 @@ func (s *Spec) MarshalProto() ([]byte, error) {
 
 func (s *Spec) UnmarshalProto(b []byte) error {
 	if len(b) == 0 {
-		return errors.New("empty spec")
+		// like a protobuf message: no bytes is the zero value (tombstones carry no spec)
+		*s = Spec{}
+		return nil
 	}
 	s.N = int64(b[0])
 	s.S = string(b[1:])
